@@ -30,6 +30,8 @@ NextItems(d, dn) == IF Group \in {"order", "all"} THEN Admissible(d, dn) ELSE Ca
 
 (* ---- style pools ---- *)
 Cmt1 == <<SP, "#", SP, "c", "m", "t">>
+(* a member comment that looks like a declaration: the text after '#' is a comment whatever it contains *)
+CmtDecl == <<SP, "#", SP, "w", "a", "s", ":", SP, "i", "n", "t", SP, "q", ";">>
 Cmt2 == <<TAB, "#", "a", SP, DQ, "q", SP, "r", DQ, SP, "z">>      \* balanced quotes inside a comment
 Cont == <<SP, BS, NL, SP, SP>>                                    \* backslash continuation between tokens
 ContCR == <<SP, BS, SP, CR, NL, TAB>>
@@ -81,7 +83,7 @@ RowStyles(d, r) ==
 TdStylesAll ==
     { [lead |-> lead, sep |-> sep, trail |-> trail, eol |-> eol, oneline |-> ol, angle |-> an, mlead |-> ml, mtrail |-> mt] :
         lead \in {<<>>}, sep \in {<<SP>>, <<SP, SP>>, <<TAB>>}, trail \in {<<>>, Cmt1}, eol \in {<<NL>>, <<CR, NL>>},
-        ol \in BOOLEAN, an \in BOOLEAN, ml \in {<<SP, SP, SP, SP>>, <<TAB>>, <<>>}, mt \in {<<>>, Cmt1, <<SP, SP>>} }
+        ol \in BOOLEAN, an \in BOOLEAN, ml \in {<<SP, SP, SP, SP>>, <<TAB>>, <<>>}, mt \in {<<>>, Cmt1, <<SP, SP>>, CmtDecl} }
 DefaultTd == [lead |-> <<>>, sep |-> <<SP>>, trail |-> <<>>, eol |-> <<NL>>, oneline |-> FALSE, angle |-> FALSE,
               mlead |-> <<SP, SP, SP, SP>>, mtrail |-> <<>>]
 (* a one-line typedef has no member lines: collapse the member-line choices *)
